@@ -100,6 +100,8 @@ CHECKS = {
         "rule": "all op sequences / all binding topologies in the stated bounds; non-trivial = contains a Remove / more than one binding; distinct = distinct live set / task list",
         "parts": [
             part("c11a", "pkg/schedule_manager", "TestVerifC11a", ["zz_verif_c11_test.go"], shards={"quick": 4, "thorough": 16}),
+            part("c11c", "pkg/schedule_manager", "TestVerifC11c", ["zz_verif_c11c_test.go"], shards={"quick": 6, "thorough": 6}, gomaxprocs=1,
+                 instrument={"files": [{"path": "pkg/schedule_manager/schedule_manager.go", "sync": True, "conc": True}]}),
             part("c11b", "pkg/shell-operator", "TestVerifC11b", ["zz_verif_c11_test.go", "zz_verif_fixture_test.go"], shards={"quick": 8, "thorough": 16},
                  extra=FX_EXTRA, instrument=FX_INSTR),
         ],
@@ -155,6 +157,9 @@ CHECKS = {
         "parts": [
             part("c03", "pkg/shell-operator", "TestVerifC03", ["zz_verif_c03_test.go", "zz_verif_fixture_test.go"], shards={"quick": 12, "thorough": 16},
                  extra=OP_EXTRA, instrument=OP_INSTR, gomaxprocs=1),
+            part("c03q", "pkg/task/queue", "TestVerifC03q", ["zz_verif_c03q_test.go", "zz_verif_c05_test.go"], shards={"quick": 9, "thorough": 9}, gomaxprocs=1,
+                 instrument={"files": [{"path": "pkg/task/queue/task_queue.go", "sync": True, "time": True, "conc": True, "touch": ["started", "q.Status"]},
+                                       {"path": "pkg/task/queue/queue_set.go", "sync": True, "time": True, "conc": True, "touch": ["q.Status"], "mapranges": ["tqs.Queues"]}]}),
             part("oprace", "pkg/shell-operator", "TestVerifRaceOperator", ["zz_verif_race_test.go", "zz_verif_c03_test.go", "zz_verif_fixture_test.go"], shards={"quick": 4, "thorough": 8},
                  extra=OP_EXTRA, instrument=OP_INSTR, race=True, gomaxprocs=4),
         ],
